@@ -533,7 +533,7 @@ def run(repo: Repo, res: Result, rule: str, scan_cls: ClassInfo | None, filter_c
                 continue
             # never None
             nn = f_and([full, ex.isnone(t)])
-            if t[0] in ("other", "ctor"):
+            if t[0] in ("other", "ctor", "bool"):
                 undecided = undecided or f"the patterns handed to the scan are {show_term(t)}: cannot see whether they may be None"
                 continue
             elif sat(nn) and not consumer_tolerates_none:
